@@ -33,6 +33,9 @@ struct Case {
 	/// Line3Parallel world (amounts in msat), and everything is pumped until the recipient holds it
 	#[serde(default)]
 	mpp: Option<(u64, u64)>,
+	/// every node's manager is written right after these flow positions, whatever `snap_bits` says
+	#[serde(default)]
+	force_snap: Vec<u16>,
 }
 
 fn weights() -> OpWeights {
@@ -57,7 +60,35 @@ fn strat(max_ops: usize) -> impl Strategy<Value = Case> {
 		proptest::collection::vec(crash_strat(), 1..3),
 		proptest::collection::vec(op_strategy(recovery_weights()), 0..12),
 	)
-		.prop_map(|(spec, flow, snap_bits, crashes, recovery)| Case { spec, flow, snap_bits, crashes, recovery, mpp: None })
+		.prop_map(|(spec, flow, snap_bits, crashes, recovery)| Case { spec, flow, snap_bits, crashes, recovery, mpp: None, force_snap: vec![] })
+}
+
+/// The forwarding node's manager is written (by another thread) between the two halves of
+/// `process_pending_htlc_forwards`: the inbound HTLC's onion is decoded and the forward queued, the manager is
+/// written, the forward goes out and is committed downstream; no later manager write happens before the node crashes.
+fn queued_forward_strat() -> impl Strategy<Value = Case> {
+	(
+		world_spec(vec![Topology::Line3]),
+		prop_oneof![(2_000_000u64..40_000_000).prop_map(Amt::Abs), (1000u16..30_000).prop_map(Amt::Frac)],
+		proptest::collection::vec(op_strategy(OpWeights { deliver: 20, events: 8, claim: 8, forwards: 4, pump: 3, ..OpWeights::zero() }), 0..8),
+		0usize..6,
+		any::<bool>(),
+		proptest::collection::vec(op_strategy(recovery_weights()), 0..10),
+	)
+		.prop_map(|(mut spec, amt, tail, extra, landed, recovery)| {
+			spec.value_sat = vec![spec.value_sat[0].max(200_000)];
+			spec.push_permille = vec![100, 500];
+			spec.inflight_pct = 100;
+			spec.dust_exposure_fixed_msat = None;
+			spec.htlc_min_msat = spec.htlc_min_msat.min(1000);
+			spec.max_accepted = spec.max_accepted.max(10);
+			let mut flow = vec![Op::Send { route: 0, amt }, Op::Flush, Op::DecodeAdds { node: 30_000 }, Op::Forwards { node: 30_000 }, Op::Flush];
+			flow.extend(tail);
+			let len = flow.len();
+			let pos = (5 + extra).min(len);
+			let after = ((pos * 65536 + len) / (len + 1)) as u16;
+			Case { spec, flow, snap_bits: vec![false; 7], crashes: vec![Crash { after, node: 30_000, snap: 0, landed }], recovery, mpp: None, force_snap: vec![2] }
+		})
 }
 
 /// Crashes inside a two-sided update dance: a few non-dust payments are fully committed and become claimable,
@@ -97,7 +128,7 @@ fn crossing_strat() -> impl Strategy<Value = Case> {
 					Crash { after, node, snap, landed }
 				})
 				.collect();
-			Case { spec, flow, snap_bits, crashes, recovery, mpp: None }
+			Case { spec, flow, snap_bits, crashes, recovery, mpp: None, force_snap: vec![] }
 		})
 }
 
@@ -145,7 +176,7 @@ fn mpp_strat() -> impl Strategy<Value = Case> {
 					Crash { after, node: if recipient { 65535 } else { pos }, snap, landed }
 				})
 				.collect();
-			Case { spec, flow, snap_bits, crashes, recovery, mpp: Some(mpp) }
+			Case { spec, flow, snap_bits, crashes, recovery, mpp: Some(mpp), force_snap: vec![] }
 		})
 }
 
@@ -251,6 +282,13 @@ fn oracle_inner(c: &Case, ctx: &mut Ctx, sim: &mut Sim) -> CaseResult {
 		tags.push(tag.to_string());
 		so.step(sim)?;
 		ro.step(sim, &mut keys)?;
+		if c.force_snap.contains(&(i as u16)) {
+			for nd in 0..n {
+				let _ = sim.w.nodes[nd].node.get_and_clear_needs_persistence();
+				sim.snapshot_manager(nd);
+				so.note_snapshot(sim, nd);
+			}
+		}
 		// manager persistence as the background processor would do it, at generated moments
 		for nd in 0..n {
 			if sim.w.nodes[nd].node.get_and_clear_needs_persistence() {
@@ -335,7 +373,7 @@ fn enumerated_cases(seed: u64, flows: usize) -> Vec<Case> {
 					// `pick` maps (x * len) >> 16: choose x so that it lands exactly on pos / node
 					let after = (((pos as u32) << 16) / (flow.len() as u32 + 1) + 1).min(65535) as u16;
 					let nodesel = ((((node as u32) << 16) / n as u32) + 1).min(65535) as u16;
-					out.push(Case { spec: spec.clone(), flow: flow.clone(), snap_bits: snap_bits.clone(), crashes: vec![Crash { after, node: nodesel, snap: if snap == 0 { 0 } else { 40000 }, landed }], recovery: vec![], mpp: None });
+					out.push(Case { spec: spec.clone(), flow: flow.clone(), snap_bits: snap_bits.clone(), crashes: vec![Crash { after, node: nodesel, snap: if snap == 0 { 0 } else { 40000 }, landed }], recovery: vec![], mpp: None, force_snap: vec![] });
 				}
 			}
 		}
@@ -358,7 +396,7 @@ fn main() {
 			thorough_cases: 40_000,
 			max_shrink: 300,
 		},
-		|| strat(60),
+		|| prop_oneof![9 => strat(60).boxed(), 1 => queued_forward_strat().boxed()],
 		oracle,
 	);
 	c.part_with(
